@@ -72,6 +72,7 @@ func (repo *BlockRepository) Load(ctx context.Context) error {
 	// Clear
 	repo.height = -1
 	repo.heights = make(map[bitcoin.Hash32]int)
+	repo.lastHeaders = nil
 
 	// Build hash height map from genesis and load lastHeaders
 	previousFileSize := -1
